@@ -197,7 +197,7 @@ def run_bind(ctx):
     hx = ctx.go_build("c08")
     quick = ctx.quick()
     cmd = [hx, "bind", "-workers", "6", "-seed", str(ctx.seed), "-frac", "0.004" if quick else "1",
-           "-coq", "110" if quick else "2500", "-py", "1500" if quick else "30000"]
+           "-coq", "80" if quick else "2500", "-py", "1000" if quick else "30000"]
     rows = ctx.jsonl(cmd, timeout=1500)
     summary = [r for r in rows if r.get("kind") == "summary"][0]
     cases = [r for r in rows if r.get("kind") in ("case", "mismatch")]
@@ -400,7 +400,7 @@ def ucase_src(c):
 def run_unpack(ctx):
     hx = ctx.go_build("c08")
     quick = ctx.quick()
-    cmd = [hx, "unpack", "-seed", str(ctx.seed), "-frac", "0.01" if quick else "1", "-coq", "40" if quick else "1500"]
+    cmd = [hx, "unpack", "-seed", str(ctx.seed), "-frac", "0.008" if quick else "1", "-coq", "30" if quick else "1500"]
     rows = ctx.jsonl(cmd, timeout=1200)
     summary = [r for r in rows if r.get("kind") == "usummary"][0]
     cases = [r for r in rows if r.get("kind") in ("ucase", "pcase")]
@@ -448,7 +448,7 @@ def unpack_finish(ctx, summary, terms, refs, bad_model, bad_spec):
         "unpack_distribution": summary["dist"], "unpack_fraction": summary["frac"], "unpack_coq_cases": len(terms),
         "unpack_model_mismatches": len(bad_model), "unpack_spec_mismatches": len(bad_spec),
         "unpack_go_spec_mismatches": summary["mismatches"],
-        "unpack_rule": "all parameter lists of <=3 parameters x marker (name, name?, name??) x target kind (22 kinds = every case of the type switch in unpackArgNoEscape and AsInt: Value, string, bool, int/int8/16/32/64, uint/uint8/16/32/64/uintptr, float64, *List, *Dict, Callable, Iterable, an Unpacker implementation, and the reflection path with starlark.Tuple and starlark.Int variables; all kinds in every position: every list of <=2 parameters, and 3-parameter lists whose third parameter ranges over all kinds; every target pre-filled with a sentinel and read back after every call, failed or not; integer targets get their boundary values min-1, min, min+1, -1, 0, max-1, max, max+1, +-2^bits, 2^bits+1, +-2^70 half of the time; quick: a seeded 1% of the lists; thorough: all lists) x calls with 0..4 positional arguments, every subset of declared names plus an undeclared one as keywords (two orders), without and with a duplicated keyword (first, last and undeclared name), argument types drawn (seeded) from None/bool/small int/large int/negative int/2^70/float/string/list/dict/tuple/function, half of the time a type the parameter accepts; wide parameter lists of 62..130 parameters (around the 64-parameter threshold of UnpackArgs' bit set) x 0/2/5/all positional arguments x a named argument at low and high indices x a second one (none, undeclared, the same again, another index, or after naming every other parameter); UnpackPositionalArgs: all kind lists <=3 x min x 0..4 arguments x with/without keywords. Targets are pre-filled with sentinels and read back.",
+        "unpack_rule": "all parameter lists of <=3 parameters x marker (name, name?, name??) x target kind (22 kinds = every case of the type switch in unpackArgNoEscape and AsInt: Value, string, bool, int/int8/16/32/64, uint/uint8/16/32/64/uintptr, float64, *List, *Dict, Callable, Iterable, an Unpacker implementation, and the reflection path with starlark.Tuple and starlark.Int variables; all kinds in every position: every list of <=2 parameters, and 3-parameter lists whose third parameter ranges over all kinds; every target pre-filled with a sentinel and read back after every call, failed or not; integer targets get their boundary values min-1, min, min+1, -1, 0, max-1, max, max+1, +-2^bits, 2^bits+1, +-2^70 half of the time; quick: a seeded 0.8% of the lists; thorough: all lists) x calls with 0..4 positional arguments, every subset of declared names plus an undeclared one as keywords (two orders), without and with a duplicated keyword (first, last and undeclared name), argument types drawn (seeded) from None/bool/small int/large int/negative int/2^70/float/string/list/dict/tuple/function, half of the time a type the parameter accepts; wide parameter lists of 62..130 parameters (around the 64-parameter threshold of UnpackArgs' bit set) x 0/2/5/all positional arguments x a named argument at low and high indices x a second one (none, undeclared, the same again, another index, or after naming every other parameter); UnpackPositionalArgs: all kind lists <=3 x min x 0..4 arguments x with/without keywords. Targets are pre-filled with sentinels and read back.",
         "unpack_samples": [ucase_src(c) + " -> " + json.dumps(c["obs"]) for c in refs[:3]],
     }
 
